@@ -38,12 +38,12 @@ PY = sys.executable
 REPO = os.environ.get('PYMAP_REPO', '/repo')
 
 
-def run_child(base, layout, hist_path, k, ack_path, tmpdir):
+def run_child(base, layout, hist_path, k, ack_path, tmpdir, mode='before'):
     try:
         os.unlink(ack_path)
     except FileNotFoundError:
         pass
-    p = subprocess.run([PY, CHILD, REPO, base, layout, hist_path, str(k), ack_path, tmpdir or '-'], capture_output=True, text=True, timeout=60,
+    p = subprocess.run([PY, CHILD, REPO, base, layout, hist_path, str(k), ack_path, tmpdir or '-', mode], capture_output=True, text=True, timeout=60,
                        env=dict(os.environ, PYTHONDONTWRITEBYTECODE='1'))
     recs = []
     try:
@@ -110,18 +110,25 @@ class Ref:
             if u in self.boxes[self.sel] and 3 in self.boxes[self.sel][u][1]:
                 del self.boxes[self.sel][u]
             return
-        m = re.match(r'UID (COPY|MOVE) (\d+) (\S+)', line)
+        m = re.match(r'UID (COPY|MOVE) ([\d:,]+) (\S+)', line)
         if m:
-            u, dest = int(m.group(2)), m.group(3)
-            code = tg[2]
-            mm = re.search(rb'\[COPYUID \d+ (\d+) (\d+)\]', reply.encode('latin1'))
-            if mm and u in self.boxes[self.sel]:
-                du = int(mm.group(2))
-                cid, fl = self.boxes[self.sel][u]
-                self.boxes[dest][du] = (cid, fl)
-                self.ever[(dest, du)] = cid
-                if m.group(1) == 'MOVE':
-                    del self.boxes[self.sel][u]
+            dest = m.group(3)
+
+            def uids(spec):
+                out = []
+                for t in spec.split(','):
+                    lo, _, hi = t.partition(':')
+                    out += list(range(int(lo), int(hi or lo) + 1))
+                return out
+            mm = re.search(rb'\[COPYUID \d+ ([\d:,]+) ([\d:,]+)\]', reply.encode('latin1'))
+            if mm:
+                for u, du in zip(uids(mm.group(1).decode()), uids(mm.group(2).decode())):
+                    if u in self.boxes[self.sel]:
+                        cid, fl = self.boxes[self.sel][u]
+                        self.boxes[dest][du] = (cid, fl)
+                        self.ever[(dest, du)] = cid
+                        if m.group(1) == 'MOVE':
+                            del self.boxes[self.sel][u]
             return
         m = re.match(r'CREATE (\S+)', line)
         if m:
@@ -231,6 +238,13 @@ def history_lines(r, kind):
         return lines
     lines = [app(), 'CREATE other', app(flags='\\Seen'), app('other')]
     n = 2
+    if kind == 'moves':
+        # C14 on maildir: MOVE / COPY cut by a process kill, with and without a stale record in the destination
+        if r.random() < 0.6:
+            lines += ['SELECT other', 'UID STORE 1 +FLAGS (\\Deleted)', 'EXPUNGE', 'SELECT INBOX']
+        for _ in range(r.randint(1, 2)):
+            lines.append(r.choice([f'UID MOVE {r.randint(1, 2)} other', 'UID MOVE 1:2 other', f'UID COPY {r.randint(1, 2)} other']))
+        return lines
     for _ in range(r.randint(2, 5)):
         x = r.random()
         if x < 0.2:
@@ -238,6 +252,9 @@ def history_lines(r, kind):
             n += 1
         elif x < 0.35:
             lines.append(f'UID STORE {r.randint(1, 3)} +FLAGS ({r.choice(["\\Seen", "\\Deleted", "\\Answered"])})')
+        elif x < 0.42:
+            # leave a stale record behind in the destination (an EXPUNGE there, no CHECK), then come back
+            lines += ['SELECT other', 'UID STORE 1 +FLAGS (\\Deleted)', 'EXPUNGE', 'SELECT INBOX']
         elif x < 0.5:
             lines.append(f'UID COPY {r.randint(1, 3)} other')
         elif x < 0.65:
@@ -364,11 +381,16 @@ def one_history(part, r, work, lines, layout, other_fs, kind):
         for x in full:
             boundaries.append((acc, acc + len(x['ops'])))
             acc += len(x['ops'])
-        ks = list(range(total))
-        for k in ks:
+        # crash *before* every operation; and *immediately after* every operation that publishes a file under its final name (rename,
+        # replace, link): the state on disk is then the same as before the next operation, except for whatever the process still held in
+        # user-space buffers
+        flat = [o for x in full for o in x['ops']]
+        ks = [(k, 'before') for k in range(total)] + [(k, 'after') for k in range(min(total, len(flat))) if flat[k][0] in ('rename', 'replace', 'link')]
+        for k0, mode in ks:
+            k = k0 if mode == 'before' else k0 + 1
             base = tempfile.mkdtemp(prefix='store-', dir=work)
             try:
-                rc, recs, err = run_child(base, layout, hist_path, k, ack_path, root_tmp)
+                rc, recs, err = run_child(base, layout, hist_path, k0, ack_path, root_tmp, mode)
                 acked = [x for x in recs if 'i' in x]
                 crash = next((x for x in recs if 'crash_at' in x), None)
                 if rc != 17 or crash is None:
@@ -391,8 +413,8 @@ def one_history(part, r, work, lines, layout, other_fs, kind):
                             os.utime(os.path.join(root, f), (1, 1))
                             part.stat('stale-lock-aged')
                 boxes, validity, subs, problems = asyncio.run(recover(base, layout))
-                ckase = dict(case, k=k, in_flight=lines[inflight].split('\r\n')[0] if inflight < len(lines) else None, crash_op=[crash['op'], crash['path']])
-                part.case(key=repr((case['history'], layout, bool(other_fs), k)), nontrivial=inside, sample=ckase)
+                ckase = dict(case, k=k, crash_mode=mode, in_flight=lines[inflight].split('\r\n')[0] if inflight < len(lines) else None, crash_op=[crash['op'], crash['path']])
+                part.case(key=repr((case['history'], layout, bool(other_fs), k, mode)), nontrivial=inside, sample=ckase)
                 part.trace()
                 for pr in problems:
                     part.violation('monitor', f'after a crash at operation {k} ({crash["op"]} {crash["path"]}) the restarted server fails: {pr}', ckase, signature='restart-fails')
@@ -507,6 +529,20 @@ def judge(part, ref, nxt, boxes, subs, case):
             if g[1] not in ok_flags:
                 part.violation('monitor', f'crash at operation {k}: uid {uid} of {box} has flags {g[1]} after the restart; acknowledged {sa[1] if sa else None}'
                                + (f', command in flight would give {sb[1]}' if sb and sb != sa else ''), case, signature='flags-lost')
+    # conservation: a message content is served at least as often as both the acknowledged state and the state after the command in flight
+    # have it (a MOVE in flight may leave it on either side, never on neither; an EXPUNGE in flight may take it away)
+    def count(bx):
+        c = {}
+        for msgs in bx.values():
+            for v in msgs.values():
+                c[v[0]] = c.get(v[0], 0) + 1
+        return c
+    ca, cb, cg = count(ref.boxes), count(nxt.boxes), count(boxes)
+    for cid in ca:
+        need = min(ca[cid], cb.get(cid, 0))
+        if cg.get(cid, 0) < need and all(b_ in boxes for b_ in set(ref.boxes) | set(nxt.boxes)):
+            part.violation('monitor', f'crash at operation {k}: message content {cid} is held {ca[cid]} time(s) by the acknowledged state and {cb.get(cid, 0)} time(s) after the command '
+                           f'in flight, but the restarted server serves it {cg.get(cid, 0)} time(s): {boxes}', case, signature='message-vanished')
     for (box, uid), cid in ref.ever.items():
         got = boxes.get(box, {}).get(uid)
         if got is not None and got[0] != cid:
